@@ -95,7 +95,8 @@ ref::File buildFile(const std::vector<Op> &ops, FileInfo *info) {
             f.h.evTime[i] = genFloatBits(r);
             f.h.evDisp[i] = static_cast<uint8_t>(r.below(2));
             size_t len = 1 + r.below(4);
-            for (size_t k = 0; k < 4; ++k) f.h.evLabel[i][k] = k < len ? static_cast<char>('A' + r.below(26)) : ' ';
+            const char padc = r.below(2) ? ' ' : '\0';      // both paddings occur in real files
+            for (size_t k = 0; k < 4; ++k) f.h.evLabel[i][k] = k < len ? static_cast<char>('A' + r.below(26)) : padc;
         }
         if (nev) I.tags.insert("events");
         if (o->a.size() > 6 && o->arg(6) != 0) {    // raw event display words / times beyond nEvents
